@@ -4,16 +4,23 @@ P  lean/MjProof/Props/C27.lean (over the reals): limited controls lie in ctrlran
    one was bad), mj_nextActivation keeps limited activations in actrange, the forcerange / tendon actfrcrange / joint
    actfrcrange limits hold at their stage, the SISO law p = a(w or u) + b0 + b1 l + b2 ldot, the generated muscle kernels
    equal the documented formulas where documentation and code agree (and provably differ where they do not), disabled
-   groups give zero force when the forcerange contains 0, the sparse transpose product equals moment' * force.
+   groups give zero force when the forcerange contains 0, the sparse transpose product equals moment' * force;
+   DELAYED CONTROLS: the local control of a delayed actuator is the clamp of the history-buffer read (mj_readCtrl /
+   mju_historyRead modelled: circular search, extrapolation, exact match, zero-order hold, linear, cubic), so it lies in
+   ctrlrange whatever raw controls the buffer holds (delayed_ctrl_in_range); actearly feeds mj_nextActivation (inside actrange).
 T  (a) c2lean kernels (mju_clip, mju_max, mju_isBad, mju_sigmoid, mju_muscleGainLength, mju_muscleGain, mju_muscleBias,
        mju_muscleDynamicsTimescale, mju_muscleDynamics) regenerated and validated bitwise on every run;
    (b) per-actuator / per-dof differential against the REAL engine: parameters and state are read from mjModel / mjData
        through harness/c/engine_repl.c, fed to drv_c27 (the Lean model of Model/Actuation.lean on Float) stage by stage
-       (control stage, act_dot, unclamped force, tendon total-force limit, forcerange clamp, sparse moment' * force, joint
+       (control stage INCLUDING the source of each control — d->ctrl or the history buffer mj_step filled while a random
+       control sequence was stepped through —, act_dot, next activation for actearly, unclamped force, tendon total-force limit, forcerange clamp, sparse moment' * force, joint
        post-processing) and compared BITWISE with act_dot, actuator_force and qfrc_actuator of mj_forward.
 S  property oracle on the engine alone: range predicates, qfrc_actuator = moment' * force (+ actuator-routed gravcomp,
    joint clamp) recomputed densely in Python (1e-12), clamp equivalence (controls beyond the limit act like controls at
-   the limit), activations inside actrange after mj_step, the affine law recomputed independently, disabled groups give
+   the limit — for the whole stepped control sequence when delayed reads do not interpolate), the control every actuator
+   demonstrably USED (recovered from act_dot / actuator_force) inside ctrlrange, delayed or not, documented act_dot and
+   affine law recomputed independently per actuator (delayed sample and next activation recomputed in Python),
+   activations inside actrange after mj_step, disabled groups give
    zero force, moment = d length / d qpos by finite differences (joint / tendon transmissions), documented anchor
    points of the muscle curves on the real kernels.
 """
@@ -26,9 +33,9 @@ from gen.enums import E
 from gen.models import ModelGen
 
 META = {
-    "technique": "hand-written executable Lean model of the per-actuator computations of mj_fwdActuation (control clamp and bad-control zeroing, act_dot, SISO gain/bias force law, disabled groups, tendon total-force limit, forcerange clamp, sparse moment-transpose product, actuator-routed gravcomp and joint actfrcrange clamp) over the law-free number class MjNum, built on c2lean-generated kernels (mju_clip, mju_max, mju_isBad, the five muscle kernels; regenerated and validated bitwise each run); documented formulas transcribed independently from doc/ into Spec/Muscle.lean; Lean 4 proofs over the reals (case splits on the spline knots, field_simp/ring, linarith, list induction for the sparse product); bitwise stage-by-stage differential of the Float instance against act_dot / actuator_force / qfrc_actuator of the real mj_forward on generated models (joint, tendon and site transmissions); independent property oracle in Python and on the real kernels",
-    "text": "Proved over the reals for the model (all inputs): a limited control, clamped, lies in ctrlrange and every entry of the control vector the forces use is that clamped control or 0 when some control was bad; mj_nextActivation keeps a limited activation in actrange (DC motors exempt, as coded); after the forcerange clamp the force lies in forcerange, after the joint clamp qfrc_actuator lies in actfrcrange, after the tendon rescaling the total force of the actuators on a tendon lies in its actfrcrange; fixed/affine gain with none/affine bias give p = a(w or u) + b0 + b1 l + b2 ldot; integrator and filter act_dot are the documented ones; the generated muscle kernels equal the documented scaled length/velocity, F0, F_V, the main bump of F_L (knots included) and the Millard activation dynamics (act in [0,1], hard switching); an actuator in a disabled group yields zero force through all later stages for every forcerange (the clamp loop skips disabled actuators); the sparse transpose product as coded equals the dense moment' * force. Tied to /repo on every run by translation (kernels) and the bitwise stage-by-stage differential against the real engine.",
-    "note": "Stated over the reals (rounding outside the proofs; the Float instance is compared bitwise). Not modelled (filtered out of the differential / not generated): delayed controls, actearly, servo setpoint wrapping on ball joints / rotational sites, PID / DC-motor / SO3 actuators, plugins, callbacks, sleeping. Transmission geometry (actuator_length, actuator_moment of joint / tendon / site transmissions; slider-crank and body transmissions are not generated) is oracle-only (finite differences), as planned in DESIGN.md. The muscle theorems need non-degenerate parameters (every mjMAX(mjMINVAL, .) guard inactive; stated as hypotheses). FINDINGS: (1) documentation vs code: XMLreference documents fpmax as the passive force at lmax and doc/_static/FLV.m gives F_P(lmax) = fpmax, the code (C, MJX and Warp alike) gives 1.5 fpmax; FLV.m adds a second bump 0.15*bump(L, lmin, (lmin+0.95)/2, 0.95) to F_L that the code does not have (theorems muscleBias_differs_from_doc, muscleGainLength_differs_from_FLVm; oracle key c27:muscle-passive-force-at-lmax-differs-from-doc); (2) FIXED in /repo (ea3125434): the forcerange clamp used to be applied to actuators of disabled groups too, so a disabled actuator whose forcerange excluded 0 output the nearest bound instead of zero; model and theorem disabled_group_zero_force now follow the fixed code (zero force for every forcerange), the oracle key c27:disabled-actuator-nonzero-force stays and a directed regression input (group 0 disabled, forcerange [1, 2]) is evaluated on every run.",
+    "technique": "hand-written executable Lean model of the per-actuator computations of mj_fwdActuation (source of every control: d->ctrl or, for a delayed actuator, mj_readCtrl / mju_historyRead of its history buffer with zero-order hold / linear / cubic interpolation; control clamp and bad-control zeroing AFTER that read; act_dot; actearly via mj_nextActivation; SISO gain/bias force law, disabled groups, tendon total-force limit, forcerange clamp, sparse moment-transpose product, actuator-routed gravcomp and joint actfrcrange clamp) over the law-free number class MjNum, built on c2lean-generated kernels (mju_clip, mju_max, mju_isBad, the five muscle kernels; regenerated and validated bitwise each run); documented formulas transcribed independently from doc/ into Spec/Muscle.lean; Lean 4 proofs over the reals (case splits on the spline knots, field_simp/ring, linarith, list induction for the sparse product); bitwise stage-by-stage differential of the Float instance against act_dot / actuator_force / qfrc_actuator of the real mj_forward on generated models (joint, tendon, site and slider-crank transmissions; actuators with control delays / history buffers of 1..7 samples and all three interpolation orders, filled by stepping a random control sequence through the real mj_step; actearly); independent property oracle in Python and on the real kernels",
+    "text": "Proved over the reals for the model (all inputs): a limited control, clamped, lies in ctrlrange and every entry of the control vector the forces use is that clamped control or 0 when some control was bad; with control delays the clamped quantity is the SOURCE of the control (the history-buffer read for a delayed actuator, d->ctrl otherwise), hence a limited delayed control lies in ctrlrange for every buffer content (ctrlStageDelayed_entry, delayed_ctrl_in_range; without delays the stage reduces to the plain one, ctrlStageDelayed_nodelay; a zero-order-hold read returns a stored sample, historyRead_zoh_mem); with actearly the force input is mj_nextActivation, inside actrange when limited; mj_nextActivation keeps a limited activation in actrange (DC motors exempt, as coded); after the forcerange clamp the force lies in forcerange, after the joint clamp qfrc_actuator lies in actfrcrange, after the tendon rescaling the total force of the actuators on a tendon lies in its actfrcrange; fixed/affine gain with none/affine bias give p = a(w or u) + b0 + b1 l + b2 ldot; integrator and filter act_dot are the documented ones; the generated muscle kernels equal the documented scaled length/velocity, F0, F_V, the main bump of F_L (knots included) and the Millard activation dynamics (act in [0,1], hard switching); an actuator in a disabled group yields zero force through all later stages for every forcerange (the clamp loop skips disabled actuators); the sparse transpose product as coded equals the dense moment' * force. Tied to /repo on every run by translation (kernels) and the bitwise stage-by-stage differential against the real engine.",
+    "note": "Stated over the reals (rounding outside the proofs; the Float instance is compared bitwise). Not modelled (filtered out of the differential / not generated): the WRITING of history buffers (mju_historyInsert in mj_advance; the buffers the real mj_step produced are read back and fed to the model), servo setpoint wrapping on ball joints / rotational sites, PID / DC-motor / SO3 actuators, plugins, callbacks, sleeping. Transmission geometry (actuator_length, actuator_moment of joint / tendon / site / slider-crank transmissions; body transmissions are not generated) is oracle-only (finite differences), as planned in DESIGN.md. The muscle theorems need non-degenerate parameters (every mjMAX(mjMINVAL, .) guard inactive; stated as hypotheses). FINDINGS: (1) documentation vs code: XMLreference documents fpmax as the passive force at lmax and doc/_static/FLV.m gives F_P(lmax) = fpmax, the code (C, MJX and Warp alike) gives 1.5 fpmax; FLV.m adds a second bump 0.15*bump(L, lmin, (lmin+0.95)/2, 0.95) to F_L that the code does not have (theorems muscleBias_differs_from_doc, muscleGainLength_differs_from_FLVm; oracle key c27:muscle-passive-force-at-lmax-differs-from-doc); (2) FIXED in /repo (ea3125434): the forcerange clamp used to be applied to actuators of disabled groups too, so a disabled actuator whose forcerange excluded 0 output the nearest bound instead of zero; model and theorem disabled_group_zero_force now follow the fixed code (zero force for every forcerange), the oracle key c27:disabled-actuator-nonzero-force stays and a directed regression input (group 0 disabled, forcerange [1, 2]) is evaluated on every run; (3) KNOWN (c27:ctrl-not-clamped:implicit-derivative): with implicit / implicitfast integrators a control beyond ctrlrange does not act like the control at the limit once a step is taken, because mjd_actuator_vel uses the raw d->ctrl (mj_fwdActuation itself clamps correctly: the same sequences are bitwise equivalent under Euler; same root cause as c25:qderiv:actuator:ctrl-outside-ctrlrange).",
 }
 
 P = "MjProof.C27."
@@ -37,6 +44,8 @@ THEOREMS = [P + t for t in (
     "force_in_forcerange", "force_clamp_noop", "jointforce_in_range", "tendon_total_in_range",
     "fixed_affine_eq_spec", "fixed_none_eq_spec", "affine_affine_eq_spec",
     "force_in_forcerange_enabled", "actuatorDisabled_iff", "disabled_group_zero_force", "clampStage_enabled",
+    "ctrlSource_nodelay", "ctrlSource_delayed", "ctrlSources_get", "ctrlStageDelayed_entry", "delayed_ctrl_in_range",
+    "ctrlStageDelayed_nodelay", "historyRead_zoh_mem", "actearly_input_in_actrange", "forceInput_late",
     "muscle_scaling", "muscleGainLength_eq_bump", "muscleGain_eq_spec", "muscleDynamics_eq_spec",
     "muscleBias_at_lmax", "muscleBias_differs_from_doc", "muscleGainLength_differs_from_FLVm",
     "qfrc_actuator_eq_momentT_force",
@@ -52,6 +61,7 @@ BIAS = {E("mjBIAS_NONE"): "none", E("mjBIAS_AFFINE"): "affine", E("mjBIAS_MUSCLE
 DYN = {E("mjDYN_NONE"): "none", E("mjDYN_INTEGRATOR"): "integrator", E("mjDYN_FILTER"): "filter", E("mjDYN_FILTEREXACT"): "filterexact",
        E("mjDYN_MUSCLE"): "muscle", E("mjDYN_USER"): "user"}
 TRN_JOINT, TRN_JIP, TRN_TENDON, TRN_SITE = E("mjTRN_JOINT"), E("mjTRN_JOINTINPARENT"), E("mjTRN_TENDON"), E("mjTRN_SITE")
+TRN_CRANK = E("mjTRN_SLIDERCRANK")
 JFREE, JBALL, JSLIDE, JHINGE = (E("mjJNT_FREE"), E("mjJNT_BALL"), E("mjJNT_SLIDE"), E("mjJNT_HINGE"))
 NDOF = {JFREE: 6, JBALL: 3, JSLIDE: 1, JHINGE: 1}
 
@@ -65,7 +75,7 @@ def make_model(ctx):
     rng = ctx.rng
     mdl = ModelGen(rng, PROFILE).make()
     lines, retarget = [], None
-    info = {"tendon_targets": 0, "site_targets": 0, "range_excludes_zero": 0}
+    info = {"tendon_targets": 0, "site_targets": 0, "slidercrank_targets": 0, "range_excludes_zero": 0}
     for l in mdl.lines:
         t = l.split()
         if t[0] == "actuator":
@@ -75,15 +85,23 @@ def make_model(ctx):
                 retarget = ("tendon", rng.choice(mdl.tendons)["name"])
             elif r < 0.5 and mdl.sites:
                 retarget = ("site", rng.choice(mdl.sites)["name"])
+            elif r < 0.62 and len(mdl.sites) >= 2:
+                a, b = rng.sample(mdl.sites, 2)
+                retarget = ("slidercrank", a["name"], b["name"])
             lines.append(l)
             if rng.random() < 0.6:
                 lines.append("set %s group %d" % (t[1], rng.randint(0, 4)))
             continue
         if retarget and len(t) >= 4 and t[0] == "set" and t[2] == "trntype":
-            l = "set %s trntype %d" % (t[1], TRN_TENDON if retarget[0] == "tendon" else TRN_SITE)
-            info["tendon_targets" if retarget[0] == "tendon" else "site_targets"] += 1
+            l = "set %s trntype %d" % (t[1], {"tendon": TRN_TENDON, "site": TRN_SITE, "slidercrank": TRN_CRANK}[retarget[0]])
+            info[retarget[0] + "_targets"] += 1
         elif retarget and len(t) >= 4 and t[0] == "set" and t[2] == "target":
             l = "set %s target %s" % (t[1], retarget[1])
+            if retarget[0] == "slidercrank":
+                # rod longer than any site distance of these small models (det > 0) most of the time; sometimes short (det <= 0 branch)
+                lines.append(l)
+                lines.append("set %s slidersite %s" % (t[1], retarget[2]))
+                l = "set %s cranklength %r" % (t[1], rng.choice((rng.uniform(2.0, 5.0), rng.uniform(2.0, 5.0), rng.uniform(0.05, 0.5))))
         elif retarget and retarget[0] == "site" and len(t) >= 4 and t[0] == "set" and t[2] == "gear":
             l = "set %s gear %s" % (t[1], " ".join(repr(rng.choice((0.0, rng.uniform(-2, 2)))) for _ in range(6)))
         elif len(t) >= 4 and t[0] == "set" and t[2] == "group":
@@ -101,6 +119,27 @@ def make_model(ctx):
         if t[0] == "tendon" and rng.random() < 0.5:
             lines.append("set %s actfrclimited %d" % (t[1], E("mjLIMITED_TRUE")))
             lines.append("set %s actfrcrange %r %r" % (t[1], -rng.uniform(0.2, 3), rng.uniform(0.2, 3)))
+    # delayed controls (history buffers) and actearly: appended `set` lines (the builder accepts them anywhere before `end`)
+    dt = [float(l.split()[2]) for l in lines if l.startswith("option timestep ")]
+    dt = dt[-1] if dt else 0.002
+    handles = [l.split()[1] for l in lines if l.split()[0] == "actuator"]
+    stateful = {l.split()[1] for l in lines if l.startswith("set ") and l.split()[2] == "dyntype"}
+    info.update({"delayed": 0, "history_without_delay": 0, "actearly": 0, "interp": {}, "delay_steps": []})
+    for h in handles:
+        r = rng.random()
+        if r < 0.4:
+            k = rng.choice((1, 2, 3, 0.5, 1.5, 2.5, rng.uniform(0.2, 6.5)))
+            ns, ip = rng.randint(1, 7), rng.choice((0, 0, 1, 2))
+            lines += ["set %s delay %r" % (h, k * dt), "set %s nsample %d" % (h, ns), "set %s interp %d" % (h, ip)]
+            info["delayed"] += 1
+            info["interp"][str(ip)] = info["interp"].get(str(ip), 0) + 1
+            info["delay_steps"].append(round(k, 3))
+        elif r < 0.5:
+            lines += ["set %s nsample %d" % (h, rng.randint(1, 4)), "set %s interp %d" % (h, rng.choice((0, 1, 2)))]
+            info["history_without_delay"] += 1
+        if h in stateful and rng.random() < 0.35:
+            lines.append("set %s actearly 1" % h)
+            info["actearly"] += 1
     if rng.random() < 0.6:
         lines.append("option disableactuator %d" % rng.randint(1, 31))
     mdl.clampdisabled = rng.random() < 0.15
@@ -153,11 +192,11 @@ MODEL_FIELDS = ("actuator_gaintype", "actuator_biastype", "actuator_dyntype", "a
                 "actuator_ctrlrange", "actuator_ctrllimited", "actuator_forcerange", "actuator_forcelimited", "actuator_actrange",
                 "actuator_actlimited", "actuator_group", "actuator_actadr", "actuator_actnum", "actuator_ctrladr", "actuator_ctrlnum",
                 "actuator_outadr", "actuator_outnum", "actuator_trntype", "actuator_trnid", "actuator_lengthrange", "actuator_acc0",
-                "actuator_actearly", "actuator_delay", "actuator_plugin", "tendon_actfrclimited", "tendon_actfrcrange",
+                "actuator_actearly", "actuator_delay", "actuator_history", "actuator_historyadr", "actuator_plugin", "tendon_actfrclimited", "tendon_actfrcrange",
                 "jnt_actfrclimited", "jnt_actfrcrange", "jnt_actgravcomp", "jnt_dofadr", "jnt_qposadr", "jnt_type", "dof_jntid",
-                "body_gravcomp", "opt.disableactuator", "opt.disableflags", "opt.enableflags", "opt.gravity", "opt.timestep")
+                "body_gravcomp", "opt.disableactuator", "opt.disableflags", "opt.integrator", "opt.enableflags", "opt.gravity", "opt.timestep")
 DATA_FIELDS = ("ctrl", "act", "act_dot", "actuator_force", "actuator_length", "actuator_velocity", "actuator_moment", "moment_rownnz",
-               "moment_rowadr", "moment_colind", "qfrc_actuator", "qfrc_gravcomp", "qpos")
+               "moment_rowadr", "moment_colind", "qfrc_actuator", "qfrc_gravcomp", "qpos", "history", "time")
 
 
 class Snap:
@@ -185,10 +224,27 @@ class Snap:
         self.force, self.length, self.velocity = g("actuator_force"), g("actuator_length"), g("actuator_velocity")
         self.moment, self.rownnz, self.rowadr, self.colind = g("actuator_moment"), gi("moment_rownnz"), gi("moment_rowadr"), gi("moment_colind")
         self.qfrc, self.qgc, self.qpos = g("qfrc_actuator"), g("qfrc_gravcomp"), g("qpos")
+        self.ahist, self.ahistadr, self.history, self.time = gi("actuator_history"), gi("actuator_historyadr"), g("history"), g("time")[0]
+        self.timestep, self.integrator = g("opt.timestep")[0], gi("opt.integrator")[0]
         self.nact, self.nv, self.nu, self.njnt = len(self.gaintype), len(self.qfrc), len(self.ctrl), len(self.jtype)
 
     def bits(self, f):
         return toks(self.raw[f])
+
+    def hist(self, i):
+        """history buffer of actuator i as (nsample, cursor, adr of times, adr of values) or None (layout of mjData.history:
+        [user, cursor, times(n), values(n)] at actuator_historyadr[i]); None also when the cursor is not a valid index"""
+        n = self.ahist[2 * i]
+        if n <= 0:
+            return None
+        a = self.ahistadr[i]
+        c = self.history[a + 1]
+        if not (c == int(c) and 0 <= c < n):
+            return None
+        return n, int(c), a + 2, a + 2 + n
+
+    def delayed(self, i):
+        return self.delay[i] != 0
 
     def disabled(self, i):
         g = self.group[i]
@@ -205,8 +261,12 @@ class Snap:
         """is actuator i inside the fragment Model/Actuation.lean models?"""
         if self.gaintype[i] not in GAIN or self.biastype[i] not in BIAS or self.dyntype[i] not in DYN:
             return False
-        if self.actearly[i] or self.delay[i] != 0 or self.plugin[i] >= 0 or self.ctrlnum[i] != 1 or self.outnum[i] != 1:
+        if self.plugin[i] >= 0 or self.ctrlnum[i] != 1 or self.outnum[i] != 1:
             return False
+        if self.ahist[2 * i] > 0 and self.hist(i) is None:
+            return False
+        if self.delayed(i) and self.ahist[2 * i] <= 0:
+            return False      # the compiler rejects delay without a buffer
         if self.actnum[i] not in (0, 1):
             return False
         # servo-shaped actuators on ball joints / sites with refsite wrap their setpoint (wrapPeriod > 0): not modelled
@@ -227,12 +287,41 @@ class Snap:
 
 
 # ------------------------------------------------------------------------------------------ Lean differential
-def lean_differential(ctx, drv, s, stats, mism, ident):
-    def call(lines):
-        rc, out, err = ctx.run_lines([drv], lines)
-        if rc != 0 or len(out) != len(lines) or any(o == "bad-op" for o in out):
-            raise common.Infra("drv_c27 failed: %s / %r" % (err[-300:], [l[:120] for l, o in zip(lines, out) if o == "bad-op"][:2]))
+class LeanDrv:
+    """one drv_c27 process for the whole run (the driver answers and flushes line by line)"""
+
+    def __init__(self, exe):
+        self.p = subprocess.Popen([exe], stdin=subprocess.PIPE, stdout=subprocess.PIPE, stderr=subprocess.DEVNULL, text=True, bufsize=1)
+        self.lines = 0
+
+    def call(self, lines):
+        out = []
+        for l in lines:
+            try:
+                self.p.stdin.write(l + "\n")
+                self.p.stdin.flush()
+                o = self.p.stdout.readline()
+            except (BrokenPipeError, OSError) as e:
+                raise common.Infra("drv_c27 died: %r" % (e,))
+            if not o.endswith("\n"):
+                raise common.Infra("drv_c27 stopped answering (rc=%r) at %r" % (self.p.poll(), l[:200]))
+            o = o[:-1]
+            if o == "bad-op":
+                raise common.Infra("drv_c27 rejected %r" % l[:300])
+            out.append(o)
+        self.lines += len(lines)
         return out
+
+    def close(self):
+        try:
+            self.p.stdin.close()
+            self.p.wait(timeout=30)
+        except Exception:
+            self.p.kill()
+
+
+def lean_differential(ctx, drv, s, stats, mism, ident, rp=None):
+    call = drv.call
 
     def compare(what, got, want, line):
         stats["bitwise_cases"] += 1
@@ -240,43 +329,60 @@ def lean_differential(ctx, drv, s, stats, mism, ident):
         if got != want:
             stats["bitwise_bad"] += 1
             if len(mism) < 20:
-                mism.append(dict(ident=ident, what=what, line=line[:500], model=got, impl=want))
+                mism.append(dict(ident=ident, what=what, line=line[:500], model=got, impl=want, replay=rp if len(mism) < 3 else None))
 
     if not all(s.modelled(i) for i in range(s.nact)):
         stats["models_outside_fragment"] += 1
         return
-    cb, crb, fb_ = s.bits("ctrl"), s.bits("actuator_ctrlrange"), None
-    # A: control stage
-    lineA = "ctrl %d %d%s" % (1 if s.clamp_disabled() else 0, s.nu, "".join(" %s %d %s %s" % (cb[k], 1 if s.ctrllimited[k] else 0, crb[2 * k], crb[2 * k + 1])
-                                                                           for k in range(s.nu)))
+    cb, crb, hb = s.bits("ctrl"), s.bits("actuator_ctrlrange"), s.bits("history")
+    dlb, tsb = s.bits("actuator_delay"), s.bits("opt.timestep")[0]
+    # A: control stage — the source of every control (d->ctrl, or the history-buffer read of a delayed actuator), the
+    #    clamp and the bad-control test, all inside the Lean model (ctrlStageDelayed)
+    owner = {s.ctrladr[i]: i for i in range(s.nact)}
+    if sorted(owner) != list(range(s.nu)):
+        stats["models_outside_fragment"] += 1
+        return
+    ents = []
+    for k in range(s.nu):
+        i = owner[k]
+        e = "%s %d %s %s %s %d" % (cb[k], 1 if s.ctrllimited[k] else 0, crb[2 * k], crb[2 * k + 1], dlb[i], s.ahist[2 * i + 1])
+        h = s.hist(i)
+        if h is None:
+            e += " 0"
+        else:
+            n, cur, ta, va = h
+            e += " %d %d %s %s" % (n, cur, " ".join(hb[ta:ta + n]), " ".join(hb[va:va + n]))
+            if s.delayed(i):
+                stats["delayed_reads"] += 1
+        ents.append(e)
+    lineA = "dctrl %d %s %d %s" % (1 if s.clamp_disabled() else 0, s.bits("time")[0], s.nu, " ".join(ents))
     u = call([lineA])[0].split()
-    # B: act_dot and unclamped forces
+    # B: act_dot, the force input (actearly: next activation) and the unclamped forces
     ab, lb, vb = s.bits("act"), s.bits("actuator_length"), s.bits("actuator_velocity")
     gp, bp, dp = s.bits("actuator_gainprm"), s.bits("actuator_biasprm"), s.bits("actuator_dynprm")
-    lr, a0 = s.bits("actuator_lengthrange"), s.bits("actuator_acc0")
-    linesB, tagB = [], []
+    lr, a0, arb = s.bits("actuator_lengthrange"), s.bits("actuator_acc0"), s.bits("actuator_actrange")
+    adb = s.bits("act_dot")
+    stateful = [i for i in range(s.nact) if s.actnum[i] == 1]
+    linesB1 = ["actdot %s %s %s %s %s %s" % (DYN[s.dyntype[i]], dp[10 * i], dp[10 * i + 1], dp[10 * i + 2], u[s.ctrladr[i]], ab[s.actadr[i]])
+               for i in stateful]
+    outB1 = call(linesB1) if linesB1 else []
+    actdot = {}
+    for i, o, l in zip(stateful, outB1, linesB1):
+        compare("act_dot[%d] (%s%s)" % (s.actadr[i], DYN[s.dyntype[i]], ", delayed ctrl" if s.delayed(i) else ""), o, adb[s.actadr[i]], l)
+        actdot[i] = o
+    early = [i for i in stateful if s.actearly[i]]
+    linesB2 = ["nextact %d %d %s %s %s %s %s %s" % (s.dyntype[i], 1 if s.actlimited[i] else 0, arb[2 * i], arb[2 * i + 1], dp[10 * i], tsb,
+                                                    ab[s.actadr[i]], actdot[i]) for i in early]
+    nxt = dict(zip(early, call(linesB2))) if linesB2 else {}
+    stats["actearly_inputs"] += len(early)
+    linesB = []
     for i in range(s.nact):
-        ui = u[s.ctrladr[i]]
-        if s.actnum[i] == 1:
-            adr = s.actadr[i]
-            linesB.append("actdot %s %s %s %s %s %s" % (DYN[s.dyntype[i]], dp[10 * i], dp[10 * i + 1], dp[10 * i + 2], ui, ab[adr]))
-            tagB.append(("actdot", i))
-            inp = ab[adr]
-        else:
-            inp = ui
+        inp = (nxt[i] if i in nxt else ab[s.actadr[i]]) if s.actnum[i] == 1 else u[s.ctrladr[i]]
         o = s.outadr[i]
         linesB.append("force %s %s %d %d %s %s %s %s %s %s %s %s" % (
             GAIN[s.gaintype[i]], BIAS[s.biastype[i]], s.group[i], s.disact, inp, lb[o], vb[o], lr[2 * o], lr[2 * o + 1], a0[o],
             " ".join(gp[10 * i:10 * i + 10]), " ".join(bp[10 * i:10 * i + 10])))
-        tagB.append(("force", i))
-    outB = call(linesB)
-    f0 = {}
-    adb = s.bits("act_dot")
-    for (kind, i), o, l in zip(tagB, outB, linesB):
-        if kind == "actdot":
-            compare("act_dot[%d] (%s)" % (s.actadr[i], DYN[s.dyntype[i]]), o, adb[s.actadr[i]], l)
-        else:
-            f0[i] = o
+    f0 = dict(zip(range(s.nact), call(linesB)))
     # C/D: tendon total-force limit
     f1 = dict(f0)
     if s.scaling_active():
@@ -298,8 +404,10 @@ def lean_differential(ctx, drv, s, stats, mism, ident):
     outE = call(linesE)
     efb = s.bits("actuator_force")
     for i in range(s.nact):
-        compare("actuator_force[%d] (gain %s, bias %s, trn %d%s)" % (s.outadr[i], GAIN[s.gaintype[i]], BIAS[s.biastype[i]], s.trntype[i],
-                                                                     ", disabled" if s.disabled(i) else ""), outE[i], efb[s.outadr[i]], linesE[i])
+        compare("actuator_force[%d] (gain %s, bias %s, trn %d%s%s%s)" % (s.outadr[i], GAIN[s.gaintype[i]], BIAS[s.biastype[i]], s.trntype[i],
+                                                                         ", disabled" if s.disabled(i) else "", ", delayed ctrl" if s.delayed(i) else "",
+                                                                         ", actearly" if (s.actearly[i] and s.actnum[i] == 1) else ""),
+                outE[i], efb[s.outadr[i]], linesE[i] + " | " + lineA[:300])
     # F: qfrc_actuator = moment' * force (engine's own force vector), then the joint post-processing
     mb = s.bits("actuator_moment")
     nout = len(s.rownnz)
@@ -331,6 +439,57 @@ def clip(x, lo, hi):
     return lo if x < lo else (hi if x > hi else x)
 
 
+MINVAL = 1e-15
+
+
+def py_history_read(cursor, times, values, t, interp):
+    """documented semantics of a delayed read (programming docs / mjmodel.h: interp 0 = zero-order hold, 1 = linear, 2 = cubic
+    spline; constant extrapolation outside the buffer), written independently of the C code over the samples in logical
+    (oldest -> newest) order"""
+    n = len(times)
+    order = [(cursor + 1 + k) % n for k in range(n)]
+    T, V = [times[p] for p in order], [values[p] for p in order]
+    if t <= T[0] + MINVAL:
+        return V[0]
+    if t >= T[-1] - MINVAL:
+        return V[-1]
+    i = next(k for k in range(n) if T[k] >= t)
+    if abs(t - T[i]) < MINVAL:
+        return V[i]
+    lo, hi = i - 1, i
+    if interp == 0:
+        return V[lo]
+    dt = T[hi] - T[lo]
+    a = (t - T[lo]) / dt
+    if interp == 1:
+        return V[lo] + a * (V[hi] - V[lo])
+    mlo = (V[hi] - V[lo - 1]) / (T[hi] - T[lo - 1]) if lo >= 1 else 0.0
+    mhi = (V[hi + 1] - V[lo]) / (T[hi + 1] - T[lo]) if hi + 1 < n else 0.0
+    a2, a3 = a * a, a * a * a
+    return (2 * a3 - 3 * a2 + 1) * V[lo] + (a3 - 2 * a2 + a) * dt * mlo + (-2 * a3 + 3 * a2) * V[hi] + (a3 - a2) * dt * mhi
+
+
+def py_ctrl_sources(s):
+    """the control each actuator sees before clamping: d->ctrl, or the delayed sample of its history buffer"""
+    src = list(s.ctrl)
+    for i in range(s.nact):
+        if s.delayed(i) and s.hist(i) is not None and s.ctrlnum[i] == 1:
+            n, cur, ta, va = s.hist(i)
+            src[s.ctrladr[i]] = py_history_read(cur, s.history[ta:ta + n], s.history[va:va + n], s.time - s.delay[i], s.ahist[2 * i + 1])
+    return src
+
+
+def py_next_act(s, i):
+    """documented next activation of a SISO actuator (Euler, exact for filterexact), clamped to actrange when limited"""
+    a, ad, h = s.act[s.actadr[i]], s.act_dot[s.actadr[i]], s.timestep
+    if DYN.get(s.dyntype[i]) == "filterexact":
+        tau = max(MINVAL, s.dynprm[10 * i])
+        a = a + ad * tau * (1 - math.exp(-h / tau))
+    else:
+        a = a + ad * h
+    return clip(a, s.actrange[2 * i], s.actrange[2 * i + 1]) if s.actlimited[i] else a
+
+
 def py_force(s, i, u):
     """documented SISO law + limits, recomputed in Python for fixed/affine gain and none/affine bias (None otherwise)"""
     g, b = GAIN.get(s.gaintype[i]), BIAS.get(s.biastype[i])
@@ -340,17 +499,75 @@ def py_force(s, i, u):
     L, V = s.length[o], s.velocity[o]
     gp, bp = s.gainprm[10 * i:10 * i + 10], s.biasprm[10 * i:10 * i + 10]
     a = gp[0] if g == "fixed" else gp[0] + gp[1] * L + gp[2] * V
-    inp = s.act[s.actadr[i]] if s.actnum[i] == 1 else u[s.ctrladr[i]]
+    if s.actnum[i] == 1:
+        inp = py_next_act(s, i) if s.actearly[i] else s.act[s.actadr[i]]
+    else:
+        inp = u[s.ctrladr[i]]
     p = a * inp + ((bp[0] + bp[1] * L + bp[2] * V) if b == "affine" else 0.0)
     return p
 
 
+def effective_ctrl(s, i):
+    """the control actuator i demonstrably USED, recovered from the engine's outputs alone (None when not recoverable):
+    integrator: act_dot; filter: act + tau * act_dot; stateless fixed/affine gain with none/affine bias whose force was not
+    touched by a later limit: (force - bias) / gain.  Returns (value, absolute tolerance)."""
+    if s.actnum[i] == 1:
+        a, ad = s.act[s.actadr[i]], s.act_dot[s.actadr[i]]
+        d = DYN.get(s.dyntype[i])
+        if d == "integrator":
+            return ad, 0.0
+        if d in ("filter", "filterexact"):
+            tau = max(MINVAL, s.dynprm[10 * i])
+            return a + tau * ad, 1e-9 * (1 + abs(a) + abs(tau * ad))
+        return None
+    if s.actnum[i] != 0 or s.disabled(i):
+        return None
+    g, b = GAIN.get(s.gaintype[i]), BIAS.get(s.biastype[i])
+    if g not in ("fixed", "affine") or b not in ("none", "affine"):
+        return None
+    if s.trntype[i] == TRN_TENDON and s.tlim[s.trnid[2 * i]]:
+        return None
+    o = s.outadr[i]
+    f, L, V = s.force[o], s.length[o], s.velocity[o]
+    if s.forcelimited[i] and not (s.forcerange[2 * i] < f < s.forcerange[2 * i + 1]):
+        return None
+    gp, bp = s.gainprm[10 * i:10 * i + 10], s.biasprm[10 * i:10 * i + 10]
+    a = gp[0] if g == "fixed" else gp[0] + gp[1] * L + gp[2] * V
+    bias = (bp[0] + bp[1] * L + bp[2] * V) if b == "affine" else 0.0
+    if abs(a) < 1e-3:
+        return None
+    return (f - bias) / a, 1e-9 * (1 + (abs(f) + abs(bias)) / abs(a))
+
+
 def oracle(s, fail, rp, stats, extra):
     # local controls per the documentation: clamped unless disabled, all zero if one is bad
-    u = [clip(s.ctrl[k], s.ctrlrange[2 * k], s.ctrlrange[2 * k + 1]) if (s.ctrllimited[k] and not s.clamp_disabled()) else s.ctrl[k]
+    # (a delayed actuator's control is the delayed sample of its history buffer; the buffer stores the raw user controls)
+    src = py_ctrl_sources(s)
+    u = [clip(src[k], s.ctrlrange[2 * k], s.ctrlrange[2 * k + 1]) if (s.ctrllimited[k] and not s.clamp_disabled()) else src[k]
          for k in range(s.nu)]
-    if any((x != x or abs(x) > 1e10) for x in u):
+    zeroed = any((x != x or abs(x) > 1e10) for x in u)
+    if zeroed:
         u = [0.0] * s.nu
+    # O11 controls are clamped to ctrlrange, whatever their source: the control each actuator demonstrably used
+    if not s.clamp_disabled() and not zeroed:
+        for i in range(s.nact):
+            k = s.ctrladr[i]
+            if not (s.modelled(i) and s.ctrllimited[k]):
+                continue
+            ev = effective_ctrl(s, i)
+            if ev is None:
+                continue
+            ue, tol = ev
+            lo, hi = s.ctrlrange[2 * k], s.ctrlrange[2 * k + 1]
+            stats["effective_ctrl_checked"] += 1
+            stats["effective_ctrl_checked_delayed"] += 1 if s.delayed(i) else 0
+            if not (lo - tol <= ue <= hi + tol):
+                fail("c27:ctrl-outside-ctrlrange",
+                     "actuator %d (%s): the control it used, recovered from act_dot / actuator_force, is %r, outside ctrlrange [%r, %r] with clamping enabled "
+                     "(d->ctrl = %r, control before clamping per the documentation = %r)"
+                     % (i, "delayed by %r s, nsample %d, interp %d" % (s.delay[i], s.ahist[2 * i], s.ahist[2 * i + 1]) if s.delayed(i) else "no delay",
+                        ue, lo, hi, s.ctrl[k], src[k]), dict(rp, actuator=i))
+                return
     for i in range(s.nact):
         o = s.outadr[i]
         f = s.force[o]
@@ -368,36 +585,63 @@ def oracle(s, fail, rp, stats, extra):
                 fail("c27:disabled-actuator-nonzero-force",
                      "actuator %d is in disabled group %d (opt.disableactuator = %d) but actuator_force = %r (forcelimited %d, forcerange [%r, %r])"
                      % (i, s.group[i], s.disact, f, s.forcelimited[i], s.forcerange[2 * i], s.forcerange[2 * i + 1]), dict(rp, actuator=i))
-    # O7 affine law + limits, recomputed
-    if all(s.modelled(i) for i in range(s.nact)):
-        raw = {}
+    # O12 documented activation derivatives (integrator: u; filter / filterexact: (u - act) / tau) with the documented control
+    for i in range(s.nact):
+        d = DYN.get(s.dyntype[i])
+        if not (s.modelled(i) and s.actnum[i] == 1 and d in ("integrator", "filter", "filterexact")):
+            continue
+        a, ad, ui = s.act[s.actadr[i]], s.act_dot[s.actadr[i]], u[s.ctrladr[i]]
+        tau = max(MINVAL, s.dynprm[10 * i])
+        e = ui if d == "integrator" else (ui - a) / tau
+        sc = abs(e) + abs(ad) + 1e-9 + (0.0 if d == "integrator" else (abs(ui) + abs(a)) / tau)
+        if s.delayed(i) and s.hist(i) is not None:
+            n_, c_, ta_, va_ = s.hist(i)
+            sc += 10 * max(abs(x) for x in s.history[va_:va_ + n_]) / (1.0 if d == "integrator" else tau)
+        stats["actdot_law_checked"] += 1
+        stats["actdot_law_checked_delayed"] += 1 if s.delayed(i) else 0
+        if abs(e - ad) > RTOL * sc:
+            fail("c27:actdot-law", "actuator %d (%s%s): act_dot = %r, documented derivative with the documented (clamped%s) control %r and act %r is %r"
+                 % (i, d, ", delayed control" if s.delayed(i) else "", ad, ", delayed" if s.delayed(i) else "", ui, a, e), dict(rp, actuator=i))
+            return
+    # O7 affine law + limits, recomputed per actuator (an actuator whose law is not recomputed here — muscle, user — only
+    #    removes itself and the actuators sharing a force-limited tendon with it)
+    raw = {i: ((0.0 if s.disabled(i) else py_force(s, i, u)) if s.modelled(i) else None) for i in range(s.nact)}
+    if s.scaling_active():
+        tot = {}
         for i in range(s.nact):
-            p = py_force(s, i, u)
-            raw[i] = 0.0 if s.disabled(i) else p
-        if all(v is not None for v in raw.values()):
-            if s.scaling_active():
-                tot = {}
-                for i in range(s.nact):
-                    if s.trntype[i] == TRN_TENDON and s.tlim[s.trnid[2 * i]]:
-                        tot[s.trnid[2 * i]] = tot.get(s.trnid[2 * i], 0.0) + raw[i]
-                for i in range(s.nact):
-                    if s.trntype[i] == TRN_TENDON and s.tlim[s.trnid[2 * i]]:
-                        t = s.trnid[2 * i]
-                        T, lo, hi = tot[t], s.trange[2 * t], s.trange[2 * t + 1]
-                        if T != 0 and T < lo:
-                            raw[i] *= lo / T
-                        elif T != 0 and T > hi:
-                            raw[i] *= hi / T
-            for i in range(s.nact):
-                e = clip(raw[i], s.forcerange[2 * i], s.forcerange[2 * i + 1]) if (s.forcelimited[i] and not s.disabled(i)) else raw[i]
-                f = s.force[s.outadr[i]]
-                sc = abs(e) + abs(f) + 1e-9
-                stats["affine_law_checked"] += 1
-                stats["max_dev_force"] = max(stats["max_dev_force"], abs(e - f) / sc)
-                if abs(e - f) > RTOL * sc:
-                    fail("c27:affine-law", "actuator %d: actuator_force = %r, documented law p = a*input + b0 + b1*l + b2*ldot with limits gives %r" % (i, f, e),
-                         dict(rp, actuator=i))
-                    return
+            if s.trntype[i] == TRN_TENDON and s.tlim[s.trnid[2 * i]]:
+                t = s.trnid[2 * i]
+                tot[t] = None if (raw[i] is None or tot.get(t, 0.0) is None) else tot.get(t, 0.0) + raw[i]
+        for i in range(s.nact):
+            if s.trntype[i] == TRN_TENDON and s.tlim[s.trnid[2 * i]]:
+                t = s.trnid[2 * i]
+                T, lo, hi = tot[t], s.trange[2 * t], s.trange[2 * t + 1]
+                if T is None:
+                    raw[i] = None
+                elif T != 0 and T < lo:
+                    raw[i] *= lo / T
+                elif T != 0 and T > hi:
+                    raw[i] *= hi / T
+    for i in range(s.nact):
+        if raw[i] is None:
+            continue
+        e = clip(raw[i], s.forcerange[2 * i], s.forcerange[2 * i + 1]) if (s.forcelimited[i] and not s.disabled(i)) else raw[i]
+        f = s.force[s.outadr[i]]
+        sc = abs(e) + abs(f) + 1e-9
+        if s.delayed(i) and s.hist(i) is not None:      # interpolated samples: rounding relative to the stored controls
+            n_, c_, ta_, va_ = s.hist(i)
+            sc += 10 * abs(s.gainprm[10 * i]) * max(abs(x) for x in s.history[va_:va_ + n_])
+        if s.actearly[i] and s.actnum[i] == 1:
+            sc += 10 * (abs(s.act[s.actadr[i]]) + abs(s.act_dot[s.actadr[i]]))
+            stats["affine_law_checked_actearly"] += 1
+        stats["affine_law_checked_delayed"] += 1 if s.delayed(i) else 0
+        stats["affine_law_checked"] += 1
+        stats["max_dev_force"] = max(stats["max_dev_force"], abs(e - f) / sc)
+        if abs(e - f) > RTOL * sc:
+            fail("c27:affine-law", "actuator %d%s%s: actuator_force = %r, documented law p = a*input + b0 + b1*l + b2*ldot with limits gives %r"
+                 % (i, " (delayed control)" if s.delayed(i) else "", " (actearly)" if (s.actearly[i] and s.actnum[i] == 1) else "", f, e),
+                 dict(rp, actuator=i))
+            return
     # O3 qfrc_actuator = moment' * force (+ actuator-routed gravcomp, joint clamp), dense recomputation
     q = [0.0] * s.nv
     for r in range(len(s.rownnz)):
@@ -439,9 +683,19 @@ def oracle(s, fail, rp, stats, extra):
     if extra.get("clamped_force") is not None and not s.clamp_disabled():
         stats["clamp_equivalence_checked"] += 1
         if extra["clamped_force"] != s.raw["actuator_force"] or extra["clamped_actdot"] != s.raw["act_dot"]:
-            fail("c27:ctrl-not-clamped", "actuator_force / act_dot change when the controls are replaced by their clamped values (clamping enabled)",
-                 dict(rp, clamped_ctrl=extra["clamped_ctrl"]))
-            return
+            # the control SEQUENCE was stepped through an implicit integrator: is the difference still there with Euler?  If not,
+            # mj_fwdActuation clamps correctly and the unclamped control entered through the integrator's derivative
+            # (mjd_actuator_vel reads the raw d->ctrl) — a distinct, recorded finding with its own key
+            if extra.get("euler_equivalent") is not None and extra["euler_equivalent"]():
+                stats["implicit_derivative_unclamped"] = stats.get("implicit_derivative_unclamped", 0) + 1
+                fail("c27:ctrl-not-clamped:implicit-derivative",
+                     "with an implicit integrator a control sequence and the same sequence clamped to ctrlrange (clamping enabled) lead to different "
+                     "actuator_force / act_dot after the steps, while with the Euler integrator they are bitwise identical: the velocity derivative of the "
+                     "actuator forces (mjd_actuator_vel) uses the raw, unclamped d->ctrl", dict(rp, clamped_ctrl=extra["clamped_ctrl"]))
+            else:
+                fail("c27:ctrl-not-clamped", "actuator_force / act_dot change when the controls (the whole control sequence, for delayed actuators) are "
+                     "replaced by their clamped values (clamping enabled)", dict(rp, clamped_ctrl=extra["clamped_ctrl"]))
+                return
     # O6 activations stay inside actrange after a step
     if extra.get("act_after") is not None:
         for i in range(s.nact):
@@ -472,8 +726,13 @@ def run_models(ctx, exe, drv, nmodels):
              "disabled_checked": 0, "affine_law_checked": 0, "jointrange_checked": 0, "qfrc_checked": 0, "tendon_total_checked": 0,
              "clamp_equivalence_checked": 0, "actrange_checked": 0, "moment_fd_checked": 0, "tendon_scaling_models": 0,
              "max_dev_force": 0.0, "max_dev_qfrc": 0.0, "max_dev_moment_fd": 0.0, "gain_types": {}, "bias_types": {}, "dyn_types": {},
-             "trn_types": {}, "clamp_disabled_models": 0, "range_excludes_zero": 0}
+             "trn_types": {}, "clamp_disabled_models": 0, "range_excludes_zero": 0,
+             "delayed_reads": 0, "actearly_inputs": 0, "effective_ctrl_checked": 0, "effective_ctrl_checked_delayed": 0,
+             "affine_law_checked_delayed": 0, "affine_law_checked_actearly": 0, "actdot_law_checked": 0, "actdot_law_checked_delayed": 0, "models_with_history": 0, "preroll_steps": {},
+             "delayed_actuators": 0, "history_without_delay": 0, "actearly_actuators": 0, "interp": {}, "delay_in_timesteps": {},
+             "clamp_equivalence_skipped_interpolating": 0}
     failures, mism = {}, []
+    drv = LeanDrv(drv)
 
     def fail(key, what, replay):
         failures[key] = failures.get(key, 0) + 1
@@ -488,37 +747,59 @@ def run_models(ctx, exe, drv, nmodels):
         rng = ctx.rng
         st = mdl.random_state(rng)
         # controls: beyond, at and inside the limits
-        st["ctrl"] = [rng.choice((rng.uniform(-1.5, 1.5), rng.uniform(-3, 3), 0.0, 1.0, -1.0, 2.0)) for _ in range(mdl.nu)]
+        def rctrl():
+            return [rng.choice((rng.uniform(-1.5, 1.5), rng.uniform(-3, 3), 0.0, 1.0, -1.0, 2.0)) for _ in range(mdl.nu)]
+        st["ctrl"] = rctrl()
+        # models with history buffers: a control sequence is stepped through first (mj_step fills the buffers with the raw controls)
+        has_hist = mdl.info["delayed"] + mdl.info["history_without_delay"] > 0
+        pre = [rctrl() for _ in range(rng.choice((0, 1, 2, 3, 5, 8, 12)))] if has_hist else []
         text = mdl.text()
         R = Repl(exe)
         R.cmd("model\n" + text.rstrip("\n"), "model")
         for f in MODEL_FIELDS:
             R.cmd("getm " + f, ("m", f))
         R.cmd("data 0")
-        for f in ("qpos", "qvel", "act", "ctrl"):
+        for f in ("qpos", "qvel", "act"):
             if st[f]:
                 R.cmd("set 0 %s %s" % (f, fmtv(st[f])))
+        for j, c in enumerate(pre):
+            R.cmd("set 0 ctrl " + fmtv(c))
+            R.cmd("step 0", ("pre", j))
+        R.cmd("set 0 ctrl " + fmtv(st["ctrl"]))
         R.cmd("forward 0", "fwd")
         for f in DATA_FIELDS:
             R.cmd("get 0 " + f, ("s0", f))
         rc, out, res, err = R.run()
-        rp = {"model": text, "state": {k: st[k] for k in ("qpos", "qvel", "act", "ctrl")},
-              "how": "feed `model` + description, then `data 0`, `set 0 qpos|qvel|act|ctrl ...`, `forward 0`, `num 0 actuator_force`, `num 0 qfrc_actuator` to harness/c/engine_repl.c"}
+        rp = {"model": text, "state": {k: st[k] for k in ("qpos", "qvel", "act", "ctrl")}, "preroll_ctrl": pre,
+              "how": "feed `model` + description, then `data 0`, `set 0 qpos|qvel|act ...`, for every vector of preroll_ctrl `set 0 ctrl ...` + `step 0`, "
+                     "then `set 0 ctrl <state.ctrl>`, `forward 0`, `num 0 actuator_force`, `num 0 act_dot`, `num 0 qfrc_actuator` to harness/c/engine_repl.c"}
         if rc != 0 or len(out) != len(R.cmds):
             fail("c27:engine-crash", "engine REPL crashed (rc=%s): %s" % (rc, err[-300:]), rp)
             continue
-        if not res["model"].startswith("ok") or res["fwd"].startswith("error"):
+        if not res["model"].startswith("ok") or res["fwd"].startswith("error") or any(res[("pre", j)].startswith("error") for j in range(len(pre))):
+            stats["models_rejected"] = stats.get("models_rejected", 0) + 1
             continue
         s = Snap(res, "s0")
         stats["models"] += 1
         stats["clamp_disabled_models"] += 1 if s.clamp_disabled() else 0
         stats["range_excludes_zero"] += mdl.info["range_excludes_zero"]
+        stats["models_with_history"] += 1 if has_hist else 0
+        if has_hist:
+            stats["preroll_steps"][str(len(pre))] = stats["preroll_steps"].get(str(len(pre)), 0) + 1
+        stats["delayed_actuators"] += mdl.info["delayed"]
+        stats["history_without_delay"] += mdl.info["history_without_delay"]
+        stats["actearly_actuators"] += mdl.info["actearly"]
+        for k_, v_ in mdl.info["interp"].items():
+            stats["interp"][k_] = stats["interp"].get(k_, 0) + v_
+        for k_ in mdl.info["delay_steps"]:
+            b_ = "integer" if k_ == int(k_) else ("half" if 2 * k_ == int(2 * k_) else "other")
+            stats["delay_in_timesteps"][b_] = stats["delay_in_timesteps"].get(b_, 0) + 1
         for i in range(s.nact):
             for nm, tab, val in (("gain_types", GAIN, s.gaintype[i]), ("bias_types", BIAS, s.biastype[i]), ("dyn_types", DYN, s.dyntype[i])):
                 stats[nm][tab.get(val, str(val))] = stats[nm].get(tab.get(val, str(val)), 0) + 1
             stats["trn_types"][str(s.trntype[i])] = stats["trn_types"].get(str(s.trntype[i]), 0) + 1
         # ---- T: stage-by-stage bitwise differential
-        lean_differential(ctx, drv, s, stats, mism, mi)
+        lean_differential(ctx, drv, s, stats, mism, mi, rp)
         # ---- follow-up engine runs for the oracle
         extra = {}
         R2 = Repl(exe)
@@ -527,7 +808,16 @@ def run_models(ctx, exe, drv, nmodels):
         for f in ("qpos", "qvel", "act"):
             if st[f]:
                 R2.cmd("set 0 %s %s" % (f, fmtv(st[f])))
-        cc = [clip(s.ctrl[k], s.ctrlrange[2 * k], s.ctrlrange[2 * k + 1]) if s.ctrllimited[k] else s.ctrl[k] for k in range(s.nu)]
+        clampv = lambda v: [clip(v[k], s.ctrlrange[2 * k], s.ctrlrange[2 * k + 1]) if s.ctrllimited[k] else v[k] for k in range(s.nu)]
+        # clamp equivalence over the whole control sequence holds when no delayed read interpolates (clip does not commute with
+        # interpolation between raw samples): zero-order hold only
+        equiv = not any(s.delayed(i) and s.ahist[2 * i + 1] != 0 for i in range(s.nact))
+        if not equiv:
+            stats["clamp_equivalence_skipped_interpolating"] += 1
+        for j, c in enumerate(pre):
+            R2.cmd("set 0 ctrl " + fmtv(clampv(c) if equiv else c))
+            R2.cmd("step 0")
+        cc = clampv(s.ctrl)
         R2.cmd("set 0 ctrl " + fmtv(cc))
         R2.cmd("forward 0")
         R2.cmd("get 0 actuator_force", "cf")
@@ -537,14 +827,14 @@ def run_models(ctx, exe, drv, nmodels):
         R2.cmd("get 0 act", "aa")
         fds = []
         for i in range(s.nact):
-            if s.trntype[i] not in (TRN_JOINT, TRN_TENDON):
+            if s.trntype[i] not in (TRN_JOINT, TRN_TENDON, TRN_CRANK):
                 continue
             for j in range(s.njnt):
                 if s.jtype[j] in (JSLIDE, JHINGE) and len(fds) < 6 and rng.random() < 0.5:
                     fds.append((i, j))
         for (i, j) in fds:
             for sg in (1, -1):
-                q = list(st["qpos"])
+                q = list(s.qpos)
                 q[s.jqadr[j]] += sg * EPS
                 R2.cmd("set 0 qpos " + fmtv(q))
                 R2.cmd("kinematics 0")
@@ -554,15 +844,45 @@ def run_models(ctx, exe, drv, nmodels):
         if rc != 0 or len(out) != len(R2.cmds):
             fail("c27:engine-crash", "engine REPL crashed in the follow-up runs (rc=%s): %s" % (rc, err[-300:]), rp)
             continue
-        extra["clamped_force"], extra["clamped_actdot"], extra["clamped_ctrl"] = res2["cf"], res2["cd"], cc
+        if equiv:
+            extra["clamped_force"], extra["clamped_actdot"], extra["clamped_ctrl"] = res2["cf"], res2["cd"], cc
+            if pre and s.integrator in (E("mjINT_IMPLICIT"), E("mjINT_IMPLICITFAST")):
+                def euler_equivalent(text=text, st=st, pre=pre, cc=cc, clampv=clampv):
+                    outs = []
+                    for cl in (False, True):
+                        R3 = Repl(exe)
+                        R3.cmd("model\n" + text.rstrip("\n"))
+                        R3.cmd("setm opt.integrator %d" % E("mjINT_EULER"), "setm")
+                        R3.cmd("data 0")
+                        for f in ("qpos", "qvel", "act"):
+                            if st[f]:
+                                R3.cmd("set 0 %s %s" % (f, fmtv(st[f])))
+                        for c in pre:
+                            R3.cmd("set 0 ctrl " + fmtv(clampv(c) if cl else c))
+                            R3.cmd("step 0")
+                        R3.cmd("set 0 ctrl " + fmtv(cc if cl else st["ctrl"]))
+                        R3.cmd("forward 0")
+                        R3.cmd("get 0 actuator_force", "f")
+                        R3.cmd("get 0 act_dot", "d")
+                        rc3, out3, res3, _ = R3.run()
+                        if rc3 != 0 or len(out3) != len(R3.cmds) or res3["setm"] != "ok":
+                            return False
+                        outs.append((res3["f"], res3["d"]))
+                    return outs[0] == outs[1]
+                extra["euler_equivalent"] = euler_equivalent
         if not res2["step"].startswith("error"):
             extra["act_after"] = F(res2["aa"])
         extra["fd"] = []
         for (i, j) in fds:
             lp, lm = F(res2[("fd", i, j, 1)])[s.outadr[i]], F(res2[("fd", i, j, -1)])[s.outadr[i]]
             extra["fd"].append((i, s.jdof[j], (lp - lm) / (2 * EPS)))
+        if not all(math.isfinite(x) for x in s.force + s.qfrc + s.act_dot + s.act + s.length + s.velocity + s.history):
+            stats["nonfinite_models_skipped_by_oracle"] = stats.get("nonfinite_models_skipped_by_oracle", 0) + 1
+            continue
         oracle(s, fail, rp, stats, extra)
     stats["failure_keys"] = failures
+    stats["lean_driver_lines"] = drv.lines
+    drv.close()
     return stats, mism
 
 
@@ -650,10 +970,13 @@ def muscle_anchor_oracle(ctx, khar, nsets):
 def run(ctx):
     import os
     quick = ctx.tier != "thorough"
-    ctx.rule = ("generated models (motor / position / velocity / intvelocity / damper / cylinder / muscle / general actuators on joint, tendon and "
-                "site transmissions; ctrl / force / act / tendon actfrc / joint actfrc limits; groups and opt.disableactuator; actuator-routed gravcomp; "
-                "mjDSBL_CLAMPCTRL) at random states with controls beyond, at and inside the limits; a case is one (model, quantity) bit comparison; "
-                "oracle per model: ranges, dense moment' * force, clamp equivalence, affine law, disabled groups, moment finite differences")
+    ctx.rule = ("generated models (motor / position / velocity / intvelocity / damper / cylinder / muscle / general actuators on joint, tendon, "
+                "site and slider-crank transmissions; ctrl / force / act / tendon actfrc / joint actfrc limits; groups and opt.disableactuator; "
+                "actuator-routed gravcomp; mjDSBL_CLAMPCTRL; control delays with history buffers of 1..7 samples, interp 0/1/2, delays that are and "
+                "are not multiples of the timestep, history without delay; actearly) at random states with controls beyond, at and inside the limits, "
+                "after a random control sequence of 0..12 mj_step calls when the model has history buffers; a case is one (model, quantity) bit "
+                "comparison; oracle per model: ranges, dense moment' * force, clamp equivalence (sequence-wide), used control inside ctrlrange, "
+                "act_dot and affine law per actuator, disabled groups, moment finite differences")
     import time
     T, t0 = {}, [time.time()]
 
